@@ -75,6 +75,22 @@ THEOREMS = {
 }
 
 
+DENSE = {
+    'ins': ('Smtb/Properties/C01Dense.lean', ['Smtb.C01Dense.path_binding', 'Smtb.C01Dense.leaf_binding', 'Smtb.C01Dense.opening_unique',
+                                               'Smtb.C01Dense.insertion_dense', 'Smtb.C01Dense.insertion_dense_noWrap',
+                                               'Smtb.C01Dense.insertion_dense_original_empty', 'Smtb.C01Dense.insertion_occupied_rejected',
+                                               'Smtb.C01Dense.insertion_dense_nat']),
+    'del': ('Smtb/Properties/C02Dense.lean', ['Smtb.C02Dense.deletion_dense', 'Smtb.C02Dense.deletion_duplicate_zero',
+                                               'Smtb.C02Dense.deletion_duplicate_stale_rejected', 'Smtb.C02Dense.deletion_wrong_item_rejected',
+                                               'Smtb.C02Dense.deletion_too_large_none', 'Smtb.C02Dense.deletion_all_padding',
+                                               'Smtb.C02Dense.deletion_dense_nat']),
+}
+FULL = {
+    'ins': ['Smtb.Properties.C03.insertionCircuit_sat_iff', 'Smtb.Properties.C03.insertion_start_index_overflow_unsat'],
+    'del': ['Smtb.Properties.C03.deletionCircuit_sat_iff', 'Smtb.Properties.C03.deletion_index_overflow_unsat'],
+}
+
+
 def corr_runs(ctx, mode, n, nfull, seeds):
     found = []
     for s in seeds:
@@ -89,8 +105,12 @@ def corr_runs(ctx, mode, n, nfull, seeds):
 def run(ctx, mode):
     prop = ctx.prop
     common.go_build(['trace', 'corrmerkle'])
-    common.lake_build([f'Smtb.Properties.{prop}', 'driver'])
+    common.lake_build([f'Smtb.Properties.{prop}', f'Smtb.Properties.{prop}Dense', 'Smtb.Properties.C03', 'driver'])
     common.audit(ctx, f'Smtb/Properties/{prop}.lean', THEOREMS[mode])
+    # tree-level meaning (under collision-freedom of the hash as an explicit hypothesis) and the
+    # full-circuit form over BN254 (stated in C03.lean, which composes C04/C05/C06 with this property)
+    common.audit(ctx, DENSE[mode][0], DENSE[mode][1])
+    common.audit(ctx, 'Smtb/Properties/C03.lean', FULL[mode])
     ctx.assumptions += [
         "gnark v0.8.0 compiles each frontend.API call to constraints whose satisfiability is the Sat gate table (Smtb/Proofs/Sat.lean); validated by the R1CS runs of T-corr, not proved",
         "parametricity: the trace interpretation and the Sat interpretation are runs of the same polymorphic Lean program",
